@@ -116,7 +116,8 @@ def exprRegs : Expression → List String
   | .Subpiece _ _ a => exprRegs a
   | _ => []
 
-/-- The run is outside the (explicit) separation assumption of the conditional specialisation: the first failing
+/-- KNOWN FINDING `unreachable-block-reached:aliased-relative-ids` (a violation of the property, reported under
+its own class only when all three conditions hold; every other failure keeps its ordinary class): the first failing
 visit is entered through a conditional jump whose condition mentions registers that the analysis holds relative to
 two DIFFERENT identifiers, and in this run the two identifiers stand for (almost) the same concrete value.
 `DataDomain::intersect` "assumes that two different relative values cannot intersect" (its documentation calls this
@@ -176,7 +177,8 @@ def handlePi (j : Json) : Except String String := do
   let mut completed := 0
   let mut aborted := 0
   let mut unknownIds := false
-  let mut aliased := 0
+  -- KNOWN FINDING (reported with its own class after all runs, so that any other violation of the case is reported first)
+  let mut aliased : Option String := none
   for (seed, run) in seeds.zipIdx do
     let σ0 := ((inits[run]?).getD []).foldl (fun s (v, x) => s.setReg v (Bv.ofBytes v.size x)) (initState seed sp regs)
     let ν : Nat → Option Nat := fun i => (ids[i]?).bind (valuate σ0 fnTid)
@@ -185,7 +187,10 @@ def handlePi (j : Json) : Except String String := do
     completed := completed + (vs.filter (·.stop.isSome)).length
     aborted := aborted + (vs.filter (·.aborted.isSome)).length
     let skip := (checkRun ν regs infos vs).isSome && aliasedIdsAtCond ν regs infos vs
-    if skip then aliased := aliased + 1
+    if skip && aliased.isNone then
+      let b := match checkRun ν regs infos vs with
+        | some (.unreachableReached b _) => b | some (.excluded b _ _ _ _) => b | _ => "?"
+      aliased := some s!"spec class=unreachable-block-reached:aliased-relative-ids expected=state-at:{b} impl=excluded seed={seed}"
     match (if skip then none else checkRun ν regs infos vs) with
     | none => pure ()
     | some (.unreachableReached b via) =>
@@ -198,12 +203,12 @@ def handlePi (j : Json) : Except String String := do
       let d := ((infos.find? (·.tid == b)).bind fun bi => (if atEnd then bi.atEnd else bi.atStart).bind fun l => (l.find? (·.1 == r)).map (·.2))
       let w := ((regs.find? (·.name == r)).map (·.size * 8)).getD 64
       return s!"spec class=excluded-at-{where_} expected={r}={toSigned w c}@{b} impl={(d.map showData).getD "?"} seed={seed}"
+  if let some v := aliased then return v
   unknownIds := ids.any fun id => id.tid != fnTid || id.hints != 0 || (match id.loc with | .register _ | .pointer _ _ => false | _ => true)
   let nblk := sub.term.blocks.length
   let nstate := (infos.filter (·.atStart.isSome)).length
   return "ok pi" ++ (if reached > seeds.length then " multi-block-runs" else "") ++ (if aborted > 0 then " null-aborts" else "")
     ++ (if nstate < nblk then " has-unreachable" else "") ++ (if unknownIds then " unknown-ids" else "")
-    ++ (if aliased > 0 then " run-with-aliased-identifiers-at-condition-skipped" else "")
     ++ (if (infos.any fun bi => bi.atStart.isSome && bi.atEnd.isNone) then " certain-null-cut" else "")
 
 def mkDom (w : Nat) (s e : Int) (st : Nat) : IntervalDomain :=
